@@ -597,7 +597,7 @@ def shape_canon(shape):
 # -------------------------------------------------------------------- C14 decorations
 import copy
 
-EXCL_TYPES = ['int32', '*string', '[]byte', 'map[string]int', 'chan int', 'func(X int32) error', 'struct{ Q int32 }', 'interface{}', '*Unsupported', 'EMBED_UNEXPORTED']
+EXCL_TYPES = ['int32', '*string', '[]byte', 'map[string]int', 'chan int', 'func(X int32) error', 'struct{ Q int32 }', 'struct{ Q int32 `parquet:"q"` }', 'interface{}', '*Unsupported', 'EMBED_UNEXPORTED']
 
 
 def _clone(kids):
@@ -648,6 +648,26 @@ def decorate_excluded(base, name, where, idx, mode, gotype):
     else:
         ex = F('Skipped' + str(idx), excl=(gotype, '-'))
     tgt.insert(idx, ex)
+    return Program(name, kids)
+
+
+# first characters of Go identifiers that are NOT exported: every ASCII lower-case letter, the underscore, a non-ASCII
+# lower-case letter and a letter without case (Go: exported iff the first character is a Unicode upper-case letter)
+UNEXPORTED_FIRST = [chr(c) for c in range(ord('a'), ord('z') + 1)] + ['_', '\u00e9', '\u4e16']
+
+
+def decorate_excluded_names(base, name, where):
+    """One unexported int32 member per spelling class of UNEXPORTED_FIRST,
+    spread over the positions of the struct reached by `where`."""
+    kids = _clone(base.kids)
+    _mark_paths(kids, [])
+    tgt = kids
+    for n in where:
+        tgt = [k for k in tgt if k.name == n][0].kids
+    n0 = len(tgt)
+    for i, ch in enumerate(UNEXPORTED_FIRST):
+        typ = ('int32', '*string')[i % 2]
+        tgt.insert((i * (n0 + 1)) // len(UNEXPORTED_FIRST) + i, F('%sq%d' % (ch, i), excl=(typ, None)))
     return Program(name, kids)
 
 
